@@ -94,9 +94,10 @@ SizeStep(e) ==
          LET json == IsJSONRule(e.rule) IN
          /\ SizeParse(e.in, e.rule, IF json THEN e.doc ELSE NoDoc, IF json THEN e.wf ELSE FALSE)
          /\ Note(Prefixed(ZParseDemands(e, zRet'), IF json THEN "C12." ELSE "C08."))
+    [] e.op = "size.utext" -> SizeUnmarshalText(e.in) /\ Note(UTextDemands(e, zRet', zRecv', e.recv))
     [] e.op = "size.new"   -> UNCHANGED zvars /\ Note(NewDemands(e))
     [] e.op = "size.bytes" -> UNCHANGED zvars /\ Note(BytesDemands(e))
     [] e.op = "constraint.kind" -> UNCHANGED zvars /\ Note(KindDemands(e))
 
-IsSizeOp(e) == e.op \in {"size.set", "size.marshal", "size.parse", "size.new", "size.bytes", "constraint.kind"}
+IsSizeOp(e) == e.op \in {"size.utext", "size.set", "size.marshal", "size.parse", "size.new", "size.bytes", "constraint.kind"}
 =============================================================================
